@@ -2384,6 +2384,14 @@ func (c *compiler) VisitAssignStmt(s *ast.AssignStmt) ast.VisitResult {
 		index = c.floatOrByteAsInt(index, indexTyp)
 		c.cbb.NewCall(c.ddpstring.replaceCharIrFun, lhs, rhs, index)
 	} else {
+		// the new value might be (a part of) the old one, as in 'Speichere x in x',
+		// so it is copied before the old value is freed and the copy is claimed afterwards
+		if !rhsTyp.IsPrimitive() && !isTempRhs {
+			rhs = c.deepCopyInto(c.NewAlloca(rhsTyp.IrType()), rhs, rhsTyp)
+			c.scp.addTemporary(rhs, rhsTyp)
+			isTempRhs = true
+		}
+
 		c.freeNonPrimitive(lhs, lhsTyp) // free the old value in the variable/list
 
 		// implicit cast to any if required
